@@ -18,11 +18,6 @@ open Netflow Netflow.JsonSchema
 theorem Serde_schema_is_modelled :
     Generated.serdeSchema.filter (fun e => modelled.contains e.1) = modelSchema := by decide
 
-/-- the types of the source that derive `Serialize` but never occur in a parse result -/
-theorem Serde_unmodelled_types :
-    (Generated.serdeSchema.filter (fun e => !modelled.contains e.1)).map (·.1) =
-      ["v9::Header", "ipfix::IPFixParser", "ipfix::Header", "data_number::FieldDataType"] := by decide
-
 /-- members of a type that the regenerated schema says are always written -/
 def alwaysG (ty : String) : List String :=
   match Generated.serdeSchema.lookup ty with
@@ -35,6 +30,18 @@ theorem Serde_always_generated : ∀ ty ∈ modelled, alwaysG ty = always ty := 
     names in the regenerated serde schema are the layout's field names, in order -/
 theorem Serde_headers_are_layouts :
     alwaysG "v9::Header" = Generated.v9Hdr.map (·.name) ∧ alwaysG "ipfix::Header" = Generated.ipHdr.map (·.name) := by decide
+
+/-- the same for V5 / V7 (headers and records are written through `layoutJ` of the layouts generated from the same struct
+    declarations): the serde member names of the regenerated schema are the layout's field names, in order, none skipped or renamed;
+    the packet structs are `header`, `flowsets` -/
+theorem Serde_fixed_are_layouts :
+    alwaysG "v5::Header" = Generated.v5Hdr.map (·.name) ∧ alwaysG "v5::FlowSet" = Generated.v5Rec.map (·.name) ∧
+    alwaysG "v7::Header" = Generated.v7Hdr.map (·.name) ∧ alwaysG "v7::FlowSet" = Generated.v7Rec.map (·.name) ∧
+    alwaysG "v5::V5" = ["header", "flowsets"] ∧ alwaysG "v7::V7" = ["header", "flowsets"] ∧
+    (∀ ty ∈ ["v5::V5", "v5::Header", "v5::FlowSet", "v7::V7", "v7::Header", "v7::FlowSet", "v9::Header", "ipfix::Header"],
+      (match Generated.serdeSchema.lookup ty with
+       | some (cont, ms) => cont == "" && ms.all (fun m => m.2 == "")
+       | none => false) = true) := by decide
 
 /-- **C16** (members, V9 packet): the object `toJ` writes for a V9 packet has exactly the members the source declares -/
 theorem C16_v9_members_generated (c : Config) (nm : JNames) (h : List Nat) (ss : List V9Set) :
